@@ -31,6 +31,9 @@ NTERM = {'coolant': 1, 'clad_od': 2, 'clad_mw': 3, 'clad_id': 4,
          'fuel_od': 5, 'fuel_cl': 6}   # after the clad split
 
 
+PIN_KEYS = ['clad_od', 'clad_mw', 'clad_id', 'fuel_od', 'fuel_cl']
+
+
 def qt(x):
     return int(round(float(x) / TQ))
 
@@ -197,11 +200,25 @@ class _CoolMax(drive.Observer):
     def __init__(self, r):
         self.r = r
         self.run = [-np.inf] * len(r.assemblies)
+        # nominal pin peaks: the largest value of each pin temperature
+        # location at the end of any step in the bundle
+        self.runP = [{k: -np.inf for k in PIN_KEYS} for _ in r.assemblies]
 
     def _look(self):
+        # every region of the assembly: the step that ends a region is
+        # followed by the switch to the next one before the step is over
+        # (regions not yet entered are at the inlet temperature, regions
+        # left behind keep their last plane)
         for i, a in enumerate(self.r.assemblies):
-            self.run[i] = max(self.run[i], float(np.max(
-                a.active_region.temp['coolant_int'])))
+            for reg in a.region:
+                self.run[i] = max(self.run[i], float(np.max(
+                    reg.temp['coolant_int'])))
+                if reg.is_rodded and \
+                        getattr(reg, 'pin_model', None) is not None:
+                    tp = np.asarray(reg.pin_temps, dtype=float)
+                    for j, k in enumerate(PIN_KEYS):
+                        self.runP[i][k] = max(self.runP[i][k],
+                                              float(np.max(tp[:, 4 + j])))
 
     def begin(self, rec):
         self.rec = rec
@@ -254,7 +271,7 @@ def analyze_trace(args):
                     if k == 'coolant':
                         peak.append(qt(ob.run[r.assemblies.index(a)]))
                     else:
-                        peak.append(qt(a._peak['pin'][k][0]))
+                        peak.append(qt(ob.runP[r.assemblies.index(a)][k]))
                 ev.append({'e': 'Analyze', 'loc': k, 'hot': hot, 'peak': peak,
                            'ids': int(sorted(asm_ids[k]) == want_ids),
                            'tol': 2})
